@@ -65,7 +65,7 @@ pub async fn run_case(backend: &str, seed: u64, rep: &mut Report) -> anyhow::Res
     let mut rng = Rng::new(seed ^ 0x18);
     let w = World::new(1, backend).await?;
     let key: AccessKey = w.password.clone().into();
-    { let mut a = w.devices[0].lock().await; crate::upgrade::history(&mut a, seed).await?; }
+    { let mut a = w.devices[0].lock().await; crate::upgrade::history(&mut a, seed, true).await?; }
     let before = { let mut a = w.devices[0].lock().await; snapshot(&mut a).await.map_err(|e| anyhow::anyhow!(e))? };
     let src_target = { let a = w.devices[0].lock().await; a.backend_target().await };
     let zip = w.tmp.path().join("backup.zip");
@@ -108,6 +108,18 @@ pub async fn run_case(backend: &str, seed: u64, rep: &mut Report) -> anyhow::Res
                 for (j, ch) in t.iter().enumerate() { if (*ch as char).is_ascii_hexdigit() { run += 1; if run == 64 { at = Some(j); break; } } else { run = 0; } }
                 if let Some(j) = at { t[j] = if t[j] == b'0' { b'1' } else { b'0' }; let mut e = entries.clone(); e[i].1 = t; variants.push(("manifest-checksum-altered".into(), e)); }
                 let _ = pos;
+            }
+            continue;
+        }
+        // attachment blobs are not listed in the manifest (a blob is named by its own digest): a changed blob is
+        // a separate variant with a weaker oracle (whatever the verdict: nothing escapes, a rejection leaves nothing)
+        let is_blob = name.starts_with("files/") || name.starts_with("blobs/");
+        if is_blob {
+            if !body.is_empty() && !variants.iter().any(|v| v.0.starts_with("blob-byte")) {
+                let mut e = entries.clone();
+                let p = rng.below(body.len() as u64) as usize;
+                e[i].1[p] ^= 1 << rng.below(8);
+                variants.push(("blob-byte:attachment".to_string(), e));
             }
             continue;
         }
